@@ -47,6 +47,12 @@ func runCase(r *common.Rng, id int, c basmdump.Case, steps int, stims map[int][]
 	for _, l := range basmdump.Dump(bm) {
 		out.Line("%s", l)
 	}
+	if len(bm.Shared_objects) > 0 {
+		// shared objects are outside the reference interpreter (and their Go simulation blocks on channels): structure only
+		out.Line("END")
+		out.Flush()
+		return
+	}
 	for i := range bm.Domains {
 		var st []basmdump.Stim
 		if stims != nil {
